@@ -111,24 +111,29 @@ type hv struct {
 }
 
 type hdrVal struct {
-	Name string
-	H    []hv
+	Name    string
+	H       []hv
+	Ext     bool     // generated (outcome.go): a handler-outcome directive or several -bin values
+	Simpler []string // names of simpler header sets of the same family, tried when minimizing
 }
 
+// nCoreHdrs: the hand-written header sets come first; init appends the generated ones.
+var nCoreHdrs int
+
 var hdrs = []hdrVal{
-	{"none", nil},
-	{"valid", []hv{{"X-Echo-Bin", "aGk="}, {"X-Echo", "plain"}, {"GRPC-Timeout", "10S"}}},
-	{"bin-nonutf8", []hv{{"X-Echo-Bin", "wyg="}}}, // valid base64 (both alphabets) of c3 28: not UTF-8
-	{"timeout-8digits", []hv{{"GRPC-Timeout", "99999999H"}}},
-	{"bad-bin", []hv{{"X-Echo-Bin", "!!!notbase64"}}},
-	{"bad-bin-second-value", []hv{{"X-Other-Bin", "aGk="}, {"X-Other-Bin", "a"}}},
-	{"bad-bin+bad-timeout", []hv{{"X-Other-Bin", "*"}, {"GRPC-Timeout", "abc"}}},
-	{"unpadded-bin", []hv{{"X-Other-Bin", "YQ"}}},
-	{"timeout-word", []hv{{"GRPC-Timeout", "abc"}}},
-	{"timeout-no-unit", []hv{{"GRPC-Timeout", "10"}}},
-	{"timeout-unit-only", []hv{{"GRPC-Timeout", "S"}}},
-	{"timeout-negative", []hv{{"GRPC-Timeout", "-5S"}}},
-	{"timeout-bad-unit", []hv{{"GRPC-Timeout", "10x"}}},
+	{Name: "none"},
+	{Name: "valid", H: []hv{{"X-Echo-Bin", "aGk="}, {"X-Echo", "plain"}, {"GRPC-Timeout", "10S"}}},
+	{Name: "bin-nonutf8", H: []hv{{"X-Echo-Bin", "wyg="}}}, // valid base64 (both alphabets) of c3 28: not UTF-8
+	{Name: "timeout-8digits", H: []hv{{"GRPC-Timeout", "99999999H"}}},
+	{Name: "bad-bin", H: []hv{{"X-Echo-Bin", "!!!notbase64"}}},
+	{Name: "bad-bin-second-value", H: []hv{{"X-Other-Bin", "aGk="}, {"X-Other-Bin", "a"}}},
+	{Name: "bad-bin+bad-timeout", H: []hv{{"X-Other-Bin", "*"}, {"GRPC-Timeout", "abc"}}},
+	{Name: "unpadded-bin", H: []hv{{"X-Other-Bin", "YQ"}}},
+	{Name: "timeout-word", H: []hv{{"GRPC-Timeout", "abc"}}},
+	{Name: "timeout-no-unit", H: []hv{{"GRPC-Timeout", "10"}}},
+	{Name: "timeout-unit-only", H: []hv{{"GRPC-Timeout", "S"}}},
+	{Name: "timeout-negative", H: []hv{{"GRPC-Timeout", "-5S"}}},
+	{Name: "timeout-bad-unit", H: []hv{{"GRPC-Timeout", "10x"}}},
 }
 
 type bodyVal struct {
@@ -223,6 +228,9 @@ var eqMsgs = []eqMsg{
 }
 
 func init() {
+	nCoreHdrs = len(hdrs)
+	hdrs = append(hdrs, outcomeHdrs()...)
+	hdrs = append(hdrs, binHdrs()...)
 	pbOK := mustPB(msgOK)
 	jsOK := []byte(`{"payload":"aGVsbG8=","count":3}`)
 	jsErr, err := protojson.Marshal(msgErr)
